@@ -167,6 +167,12 @@ func (s *Scanner) scanEscape(quote rune) bool {
 		s.advance()
 		return true
 	default:
+		// the escaped character may be a line break or the end of the source,
+		// the range must not reach past the end of the line then
+		width := uint(2)
+		if next := s.peekNext(); next == '\n' || next == eof {
+			width = 1
+		}
 		s.err(
 			ddperror.SYN_MALFORMED_LITERAL,
 			token.Range{
@@ -176,7 +182,7 @@ func (s *Scanner) scanEscape(quote rune) bool {
 				},
 				End: token.Position{
 					Line:   s.line,
-					Column: s.column + 2,
+					Column: s.column + width,
 				},
 			},
 			fmt.Sprintf("Unbekannte Escape Sequenz '\\%v'", s.peekNext()),
